@@ -83,7 +83,7 @@ static int c20_epoll_wait(int epfd, struct epoll_event *events, int maxevents, i
 
 static JanetVM *main_vm = NULL;
 static pthread_mutex_t c20_mu = PTHREAD_MUTEX_INITIALIZER;
-static int opt_events = 0, opt_snap = 0;
+static int opt_events = 0, opt_snap = 0, opt_idle = 0;
 static long c20_step = 0;
 static long n_tstarted = 0, n_twritten = 0, n_posted = 0, n_delivered = 0, n_delivered_null = 0;
 static long n_extdec = 0, n_extinc = 0;
@@ -358,7 +358,7 @@ static int c20_epoll_wait(int epfd, struct epoll_event *events, int maxevents, i
         fflush(stdout);
         pthread_mutex_unlock(&c20_mu);
     }
-    if (IS_MAIN() && opt_snap && janet_vm.tq_count == 0) {
+    if (IS_MAIN() && (opt_snap || opt_idle) && janet_vm.tq_count == 0) {
         /* about to block without a timer: somebody must be able to wake the loop up */
         Truth t = ground_truth();
         if (t.susp + t.lis + t.inpipe + t.calls == 0) {
@@ -369,7 +369,7 @@ static int c20_epoll_wait(int epfd, struct epoll_event *events, int maxevents, i
             _exit(4);
         }
     }
-    if (IS_MAIN() && opt_snap && janet_vm.tq_count > 0 && count_stale_timers() == janet_vm.tq_count) {
+    if (IS_MAIN() && (opt_snap || opt_idle) && janet_vm.tq_count > 0 && count_stale_timers() == janet_vm.tq_count) {
         /* about to block until a timer fires although every timer left is stale (its fiber was resumed / cancelled / is dead) */
         Truth t = ground_truth();
         if (t.susp + t.lis + t.inpipe + t.calls == 0) {
@@ -526,17 +526,19 @@ static Janet cfun_measure(int32_t argc, Janet *argv) {
     return janet_wrap_nil();
 }
 
-/* (c20/stats) -> [listener_count tq_count runq root_count block_count] */
+/* (c20/stats) -> [listener_count tq_count runq root_count block_count outstanding-by-ground-truth] */
 static Janet cfun_stats(int32_t argc, Janet *argv) {
     (void) argv;
     janet_fixarity(argc, 0);
-    Janet tup[5];
+    Janet tup[6];
+    Truth t = ground_truth();
+    tup[5] = janet_wrap_integer((int32_t)(t.susp + t.lis + t.inpipe + t.calls));
     tup[0] = janet_wrap_integer((int32_t) janet_atomic_load(&janet_vm.listener_count));
     tup[1] = janet_wrap_integer((int32_t) janet_vm.tq_count);
     tup[2] = janet_wrap_integer(janet_q_count(&janet_vm.spawn));
     tup[3] = janet_wrap_integer((int32_t) janet_vm.root_count);
     tup[4] = janet_wrap_integer((int32_t) janet_vm.block_count);
-    return janet_wrap_tuple(janet_tuple_n(tup, 5));
+    return janet_wrap_tuple(janet_tuple_n(tup, 6));
 }
 
 /* (c20/loop1-interrupt) : the public API janet_loop1_interrupt on this VM */
@@ -594,6 +596,7 @@ int main(int argc, char **argv) {
     for (int i = 1; i < argc; i++) {
         if (!strcmp(argv[i], "--events")) opt_events = 1;
         else if (!strcmp(argv[i], "--snap")) opt_snap = 1;
+        else if (!strcmp(argv[i], "--idle")) opt_idle = 1;
         else if (!strcmp(argv[i], "--watchdog") && i + 1 < argc) watchdog_secs = atoi(argv[++i]);
         else script = argv[i];
     }
